@@ -1,7 +1,325 @@
-import MitmVerif.Model.C48
-namespace MitmVerif.Props.C48
-open MitmVerif MitmVerif.C48
+/-
+  C48 — property theorems (exported commands reproduce the request and are shell-safe).
 
-theorem quote_empty : Sh.quote [] = [39, 39] := by decide
+  Shell safety
+  * `run_join_quote`        : for ALL argument lists (any bytes), a POSIX reading of
+                              `" ".join(shlex.quote(a) for a in args)` is the simple command with exactly `args`
+                              — no operator, expansion or second command is exposed.
+  * `curl_no_body`, `curl_body_plain`, `curl_body_ctl_bash`, `curl_body_ctl_dash`
+                            : the whole curl command line executes one command whose argv is `curlArgs` (+ `-d` value).
+  * `curl_executes_curl`    : that command is `curl`.
+  * `httpie_no_body`, `httpie_body_plain`, `httpie_body_ctl_bash` : same for httpie (`<<<` here-string, bash).
+  Fidelity
+  * `argv_encodes_method_url_headers` : curl's reading of that argv gives the request's method, url, the `-H` lines of the
+                              popped header set (`--compressed` standing for Accept-Encoding), for ALL requests.
+  * `body_exact_partial`    : the `-d` value is the text itself when the text has no C0 control character (any shell), or
+                              when the shell's printf knows `\xHH` and the text does not end in a newline.
+    `body_exact_counterexample_newline` (F-C48b), `body_exact_counterexample_dash` (F-C48d): the full statement
+    `BodyExact` fails on concrete witnesses.
+  * `raw_parses_back`       : the raw export of a representable request reads back as the same request.
+-/
+import MitmVerif.Lemmas.C48Body
+import MitmVerif.Lemmas.C48Raw
+namespace MitmVerif.Props.C48
+open MitmVerif MitmVerif.C48 MitmVerif.C48.Sh MitmVerif.Lemmas.C48
+
+private theorem run_of_steps (hex : Bool) (cmd : Bytes) (s' : St) (ws : List Word)
+    (h : steps hex St.init cmd = some s') (hm : s'.mode = .normal) (hf : s'.frame = none)
+    (hfin : finish s' = ws.reverse) : run hex cmd = interp ws := by
+  unfold run; simp [h, hm, hf, hfin]
+
+/-- **shell safety of the quoting.** Whatever bytes the arguments contain, the joined line is read back as exactly
+    those arguments (one simple command, no redirection). -/
+theorem run_join_quote (hex : Bool) (args : List Bytes) :
+    run hex (joinSp (args.map quote)) = some ⟨args, none⟩ := by
+  obtain ⟨s', h, hm, hf, hfin⟩ := steps_join hex args St.init rfl rfl
+  rw [run_of_steps hex _ s' (args.map mkWord) h hm (by simpa [St.init] using hf) (by simpa [St.init] using hfin)]
+  exact interp_plain args
+
+private theorem run_tail_q (hex : Bool) (args : List Bytes) (x : Bytes) :
+    run hex (joinSp (args.map quote) ++ [32, 45, 100, 32] ++ quote x) = some ⟨args ++ [[45, 100], x], none⟩ := by
+  obtain ⟨s', h, hm, hf, hfin⟩ := run_tail_quoted hex args [45, 100] ⟨[45, 100], false⟩ (flag_d hex) x
+  have h' : steps hex St.init (joinSp (args.map quote) ++ [32, 45, 100, 32] ++ quote x) = some s' := by
+    simpa using h
+  rw [run_of_steps hex _ s' ((args ++ [[45, 100], x]).map mkWord) h' hm hf (by simp [hfin, mkWord])]
+  exact interp_plain _
+
+private theorem run_tail_s (hex : Bool) (args : List Bytes) (fmt out : Bytes) (hp : printfFmt hex fmt = some out) :
+    run hex (joinSp (args.map quote) ++ [32, 45, 100, 32] ++ (sSubstOpen ++ quote fmt ++ sSubstClose)) =
+      some ⟨args ++ [[45, 100], stripNl out], none⟩ := by
+  obtain ⟨s', h, hm, hf, hfin⟩ := run_tail_subst hex args [45, 100] ⟨[45, 100], false⟩ (flag_d hex) fmt out hp
+  have h' : steps hex St.init (joinSp (args.map quote) ++ [32, 45, 100, 32] ++
+      (sSubstOpen ++ quote fmt ++ sSubstClose)) = some s' := by simpa using h
+  rw [run_of_steps hex _ s' ((args ++ [[45, 100], stripNl out]).map mkWord) h' hm hf (by simp [hfin, mkWord])]
+  exact interp_plain _
+
+private theorem run_here_q (hex : Bool) (args : List Bytes) (x : Bytes) :
+    run hex (joinSp (args.map quote) ++ [32, 60, 60, 60, 32] ++ quote x) = some ⟨args, some (x ++ [10])⟩ := by
+  obtain ⟨s', h, hm, hf, hfin⟩ := run_tail_quoted hex args [60, 60, 60] ⟨sHere, true⟩ (flag_here hex) x
+  have h' : steps hex St.init (joinSp (args.map quote) ++ [32, 60, 60, 60, 32] ++ quote x) = some s' := by
+    simpa using h
+  rw [run_of_steps hex _ s' (args.map mkWord ++ [⟨sHere, true⟩, ⟨x, false⟩]) h' hm hf (by simp [hfin])]
+  exact interp_here args x
+
+private theorem run_here_s (hex : Bool) (args : List Bytes) (fmt out : Bytes) (hp : printfFmt hex fmt = some out) :
+    run hex (joinSp (args.map quote) ++ [32, 60, 60, 60, 32] ++ (sSubstOpen ++ quote fmt ++ sSubstClose)) =
+      some ⟨args, some (stripNl out ++ [10])⟩ := by
+  obtain ⟨s', h, hm, hf, hfin⟩ := run_tail_subst hex args [60, 60, 60] ⟨sHere, true⟩ (flag_here hex) fmt out hp
+  have h' : steps hex St.init (joinSp (args.map quote) ++ [32, 60, 60, 60, 32] ++
+      (sSubstOpen ++ quote fmt ++ sSubstClose)) = some s' := by simpa using h
+  rw [run_of_steps hex _ s' (args.map mkWord ++ [⟨sHere, true⟩, ⟨stripNl out, false⟩]) h' hm hf (by simp [hfin])]
+  exact interp_here args _
+
+private theorem cfc_plain (t : Bytes) (h : hasCtl t = false) : contentForConsole t = quote t := by
+  simp [contentForConsole, h]
+
+private theorem cfc_ctl (t : Bytes) (h : hasCtl t = true) :
+    contentForConsole t = sSubstOpen ++ quote (t.flatMap escByte) ++ sSubstClose := by
+  simp [contentForConsole, h, sSubstOpen, sSubstClose]
+
+/-! ### curl -/
+
+/-- the command that is executed is curl -/
+theorem curl_executes_curl (p : Bool) (addr : Option Bytes) (r : Req) :
+    (curlArgs p addr r).head? = some [99, 117, 114, 108] := by
+  simp [curlArgs]
+
+/-- no body: one simple command, argv = `curlArgs`, in every shell -/
+theorem curl_no_body (hex p : Bool) (addr : Option Bytes) (r : Req) (hb : r.body = .none) :
+    ∃ cmd, curlCommand p addr r = some cmd ∧ run hex cmd = some ⟨curlArgs p addr r, none⟩ := by
+  refine ⟨_, by simp [curlCommand, hb], run_join_quote hex _⟩
+
+/-- text body without C0 control characters: the `-d` value is the text, in every shell -/
+theorem curl_body_plain (hex p : Bool) (addr : Option Bytes) (r : Req) (t : Bytes) (hb : r.body = .text t)
+    (hc : hasCtl t = false) :
+    ∃ cmd, curlCommand p addr r = some cmd ∧
+      run hex cmd = some ⟨curlArgs p addr r ++ [[45, 100], t], none⟩ := by
+  refine ⟨_, by simp [curlCommand, hb], ?_⟩
+  rw [cfc_plain t hc]
+  exact run_tail_q hex _ t
+
+/-- text body with control characters under a printf that knows `\xHH` (bash): the value is the text minus its
+    trailing newlines -/
+theorem curl_body_ctl_bash (p : Bool) (addr : Option Bytes) (r : Req) (t : Bytes) (hb : r.body = .text t)
+    (hc : hasCtl t = true) :
+    ∃ cmd, curlCommand p addr r = some cmd ∧
+      run true cmd = some ⟨curlArgs p addr r ++ [[45, 100], stripNl t], none⟩ := by
+  refine ⟨_, by simp [curlCommand, hb], ?_⟩
+  rw [cfc_ctl t hc]
+  exact run_tail_s true _ _ t (printf_esc_hex t)
+
+/-- … under a printf without `\x` (dash): every control byte arrives spelled `\xHH` -/
+theorem curl_body_ctl_dash (p : Bool) (addr : Option Bytes) (r : Req) (t : Bytes) (hb : r.body = .text t)
+    (hc : hasCtl t = true) :
+    ∃ cmd, curlCommand p addr r = some cmd ∧
+      run false cmd = some ⟨curlArgs p addr r ++ [[45, 100], stripNl (t.flatMap dashByte)], none⟩ := by
+  refine ⟨_, by simp [curlCommand, hb], ?_⟩
+  rw [cfc_ctl t hc]
+  exact run_tail_s false _ _ _ (printf_esc_nohex t)
+
+/-- the statement "for bodies that are valid text — exactly that body", for a shell `hex` and a text `t` -/
+def BodyExact (hex : Bool) (t : Bytes) : Prop :=
+  ∀ (p : Bool) (addr : Option Bytes) (r : Req), r.body = .text t →
+    ∃ cmd, curlCommand p addr r = some cmd ∧ run hex cmd = some ⟨curlArgs p addr r ++ [[45, 100], t], none⟩
+
+/-- `BodyExact` outside the two recorded defect classes: no C0 control character (any shell), or a `\x`-capable
+    printf and no trailing newline -/
+theorem body_exact_partial (hex : Bool) (t : Bytes)
+    (h : hasCtl t = false ∨ (hex = true ∧ t.getLast? ≠ some 10)) : BodyExact hex t := by
+  intro p addr r hb
+  by_cases hc : hasCtl t = true
+  · rcases h with h | ⟨hh, hl⟩
+    · simp [hc] at h
+    · subst hh
+      obtain ⟨cmd, h1, h2⟩ := curl_body_ctl_bash p addr r t hb hc
+      exact ⟨cmd, h1, by rw [h2, stripNl_of_last t hl]⟩
+  · exact curl_body_plain hex p addr r t hb (by simpa using hc)
+
+private def wReq (t : Bytes) : Req := ⟨[80, 79, 83, 84], [104], [104], 80, [104, 116, 116, 112, 58, 47, 47, 104, 47], [], .text t⟩
+
+/-- F-C48b: `line\n` under bash arrives as `line` -/
+theorem body_exact_counterexample_newline : ¬ BodyExact true [108, 105, 110, 101, 10] := by
+  intro h
+  obtain ⟨cmd, h1, h2⟩ := h false none (wReq [108, 105, 110, 101, 10]) rfl
+  obtain ⟨cmd', h1', h2'⟩ := curl_body_ctl_bash false none (wReq [108, 105, 110, 101, 10]) _ rfl (by decide)
+  rw [h1] at h1'
+  cases h1'
+  rw [h2] at h2'
+  revert h2'
+  decide
+
+/-- F-C48d: `a\x01b` under a printf without `\x` arrives as the six characters `a\x01b` -/
+theorem body_exact_counterexample_dash : ¬ BodyExact false [97, 1, 98] := by
+  intro h
+  obtain ⟨cmd, h1, h2⟩ := h false none (wReq [97, 1, 98]) rfl
+  obtain ⟨cmd', h1', h2'⟩ := curl_body_ctl_dash false none (wReq [97, 1, 98]) _ rfl (by decide)
+  rw [h1] at h1'
+  cases h1'
+  rw [h2] at h2'
+  revert h2'
+  decide
+
+/-! ### what the argv means to curl -/
+
+private theorem decode_headers : ∀ (hs : List (Bytes × Bytes)) (rest : List Bytes) (c : Curl),
+    decodeCurlArgs (curlHeaderArgs hs ++ rest) c =
+      decodeCurlArgs rest { c with
+        headers := c.headers ++ (hs.filter (fun h => lname h.1 ≠ sAE)).map headerArg,
+        compressed := c.compressed || hs.any (fun h => lname h.1 = sAE) } := by
+  intro hs
+  induction hs with
+  | nil => intro rest c; simp [curlHeaderArgs]
+  | cons h r ih =>
+    intro rest c
+    by_cases hae : lname h.1 = sAE
+    · simp only [curlHeaderArgs, hae, if_true, List.append_assoc, List.singleton_append]
+      rw [decodeCurlArgs]
+      simp only [show ¬ (sCompressed = sH) by decide, show ¬ (sCompressed = sX) by decide,
+        show ¬ (sCompressed = sD) by decide, show ¬ (sCompressed = sResolve) by decide, if_false, if_true]
+      rw [ih]
+      simp [hae]
+    · simp only [curlHeaderArgs, hae, if_false, List.append_assoc, List.cons_append, List.nil_append]
+      rw [decodeCurlArgs]
+      simp only [if_true]
+      rw [ih]
+      simp [hae, List.append_assoc]
+
+/-- the `-d VALUE` the exporter appends for a text body, as argv -/
+def dataArgs : Option Bytes → List Bytes
+  | none => []
+  | some v => [sD, v]
+
+/-- **argv encodes method, URL and header set.** For every request (URL not starting with `-`) and whatever value
+    travels with `-d`: curl's reading of the exported argv has the request's method (`-X`, and without `-X` curl's own
+    default agrees with it), exactly one URL — the request's —, one `-H` line per remaining header in order (plus
+    `content-length: 0` for a body-less non-GET request), `--compressed` iff an Accept-Encoding header was present, and
+    data iff the request has a body. -/
+theorem argv_encodes_method_url_headers (p : Bool) (addr : Option Bytes) (r : Req) (d : Option Bytes)
+    (hurl : r.url.head? ≠ some 45) (hd : d.isSome = (r.body != .none)) :
+    ∃ c, decodeCurl (curlArgs p addr r ++ dataArgs d) = some c ∧
+      c.effMethod = r.method ∧ c.urls = [r.url] ∧ c.data = d ∧
+      c.headers = ((popHeaders r.host r.headers).filter (fun h => lname h.1 ≠ sAE)).map headerArg ++
+        (if r.method ≠ sGET ∧ r.body = .none then [sCL0] else []) ∧
+      c.compressed = (popHeaders r.host r.headers).any (fun h => lname h.1 = sAE) := by
+  have hurlopt : ¬ (r.url = sH) ∧ ¬ (r.url = sX) ∧ ¬ (r.url = sD) ∧ ¬ (r.url = sResolve) ∧ ¬ (r.url = sCompressed) := by
+    refine ⟨?_, ?_, ?_, ?_, ?_⟩ <;> (intro h; rw [h] at hurl; revert hurl; decide)
+  obtain ⟨u1, u2, u3, u4, u5⟩ := hurlopt
+  -- the url and data part
+  have htail : ∀ c : Curl, decodeCurlArgs ([r.url] ++ dataArgs d) c =
+      some { c with urls := c.urls ++ [r.url], data := match d with | some v => some v | none => c.data } := by
+    intro c
+    rw [List.singleton_append, decodeCurlArgs]
+    simp only [u1, u2, u3, u4, u5, hurl, if_false]
+    cases d with
+    | none => simp [dataArgs, decodeCurlArgs]
+    | some v => simp [dataArgs, decodeCurlArgs, sD]
+  -- resolve part
+  have hres : ∀ (rest : List Bytes) (c : Curl), ∃ rs, decodeCurlArgs
+      ((match addr with
+        | some a => if p = true ∧ ¬ a.isEmpty = true ∧ r.prettyHost ≠ a then
+            [sResolve, r.prettyHost ++ [58] ++ decBytes r.port ++ [58, 91] ++ a ++ [93]] else []
+        | none => []) ++ rest) c = decodeCurlArgs rest { c with resolve := c.resolve ++ rs } := by
+    intro rest c
+    cases addr with
+    | none => exact ⟨[], by simp⟩
+    | some a =>
+      by_cases hcnd : p = true ∧ ¬ a.isEmpty = true ∧ r.prettyHost ≠ a
+      · refine ⟨[r.prettyHost ++ [58] ++ decBytes r.port ++ [58, 91] ++ a ++ [93]], ?_⟩
+        simp only [hcnd, and_self, if_true, List.cons_append, List.nil_append]
+        rw [decodeCurlArgs]
+        simp [show ¬ (sResolve = sH) by decide, show ¬ (sResolve = sX) by decide, show ¬ (sResolve = sD) by decide]
+      · exact ⟨[], by simp [hcnd]⟩
+  unfold decodeCurl curlArgs
+  simp only [List.cons_append, List.nil_append, List.append_assoc]
+  obtain ⟨rs, hrs⟩ := hres (curlHeaderArgs (popHeaders r.host r.headers) ++
+      ((if r.method ≠ sGET then
+          (if r.body = .none then [sH, sCL0] else []) ++ [sX, r.method]
+        else if r.body ≠ .none then [sX, sGET] else []) ++ ([r.url] ++ dataArgs d))) {}
+  simp only [sResolve, sH, sX, sCL0, sGET] at hrs ⊢
+  rw [hrs, decode_headers]
+  by_cases hm : r.method = sGET
+  · by_cases hb : r.body = .none
+    · have hdn : d = none := by
+        cases d with
+        | none => rfl
+        | some v => simp [hb] at hd
+      subst hdn
+      simp only [hm, hb, sGET, ne_eq, not_true_eq_false, if_false, List.nil_append]
+      rw [htail]
+      refine ⟨_, rfl, ?_⟩
+      simp [Curl.effMethod, sGET]
+    · simp only [hm, hb, sGET, ne_eq, not_true_eq_false, not_false_eq_true, if_false, if_true, List.cons_append,
+        List.nil_append]
+      rw [decodeCurlArgs]
+      simp only [show ¬ (([45, 88] : Bytes) = [45, 72]) by decide, if_false, if_true]
+      rw [htail]
+      refine ⟨_, rfl, ?_⟩
+      cases d with
+      | none => simp [hb] at hd
+      | some v => simp [Curl.effMethod, hm, sGET]
+  · by_cases hb : r.body = .none
+    · have hdn : d = none := by
+        cases d with
+        | none => rfl
+        | some v => simp [hb] at hd
+      subst hdn
+      simp only [hm, hb, sGET, ne_eq, not_false_eq_true, if_true, List.cons_append, List.nil_append]
+      rw [decodeCurlArgs]
+      simp only [if_true]
+      rw [decodeCurlArgs]
+      simp only [show ¬ (([45, 88] : Bytes) = [45, 72]) by decide, if_false, if_true]
+      rw [htail]
+      refine ⟨_, rfl, ?_⟩
+      simp [Curl.effMethod, hm, sGET, List.append_assoc]
+    · simp only [hm, hb, sGET, ne_eq, not_false_eq_true, if_true, if_false, List.cons_append, List.nil_append]
+      rw [decodeCurlArgs]
+      simp only [show ¬ (([45, 88] : Bytes) = [45, 72]) by decide, if_false, if_true]
+      rw [htail]
+      refine ⟨_, rfl, ?_⟩
+      cases d with
+      | none => simp [hb] at hd
+      | some v => simp [Curl.effMethod, hm, hb, sGET]
+
+/-! ### httpie -/
+
+theorem httpie_no_body (hex : Bool) (r : Req) (hb : r.body = .none) :
+    ∃ cmd, httpieCommand r = some cmd ∧ run hex cmd = some ⟨httpieArgs r, none⟩ := by
+  refine ⟨_, by simp [httpieCommand, hb], run_join_quote hex _⟩
+
+theorem httpie_body_plain (hex : Bool) (r : Req) (t : Bytes) (hb : r.body = .text t) (hc : hasCtl t = false) :
+    ∃ cmd, httpieCommand r = some cmd ∧ run hex cmd = some ⟨httpieArgs r, some (t ++ [10])⟩ := by
+  refine ⟨_, by simp [httpieCommand, hb], ?_⟩
+  rw [cfc_plain t hc]
+  exact run_here_q hex _ t
+
+theorem httpie_body_ctl_bash (r : Req) (t : Bytes) (hb : r.body = .text t) (hc : hasCtl t = true) :
+    ∃ cmd, httpieCommand r = some cmd ∧ run true cmd = some ⟨httpieArgs r, some (stripNl t ++ [10])⟩ := by
+  refine ⟨_, by simp [httpieCommand, hb], ?_⟩
+  rw [cfc_ctl t hc]
+  exact run_here_s true _ _ t (printf_esc_hex t)
+
+/-- httpie's argv is `http METHOD URL` followed by one `name: value` item per remaining header -/
+theorem httpie_argv_shape (r : Req) :
+    httpieArgs r = [104, 116, 116, 112] :: r.method :: r.url :: (popHeaders r.host r.headers).map headerArg := by
+  simp [httpieArgs]
+
+/-! ### raw export -/
+
+/-- **the raw export parses back.** For a request HTTP/1 can represent (method/target without SP/CR, version without
+    CR, field names without `:`/CR and non-empty, values without CR) the reader recovers exactly the request. -/
+theorem raw_parses_back (r : RawReq) (h : WireSafe r) : parseRaw (rawRequest r) = some r :=
+  parseRaw_rawRequest r h
+
+/-- on that path `assemble_request` is `rawRequest` -/
+theorem assemble_nonchunked (r : RawReq) (h : isChunked r.fields = false) : assembleRequest r = some (rawRequest r) := by
+  simp [assembleRequest, h]
+
+/-! non-vacuity -/
+example : run true (joinSp ([[99, 117, 114, 108], [36, 40, 105, 100, 41], [39], []].map quote)) =
+    some ⟨[[99, 117, 114, 108], [36, 40, 105, 100, 41], [39], []], none⟩ := run_join_quote _ _
+example : run true [99, 117, 114, 108, 59, 105, 100] = none := by decide       -- `curl;id` is not read as one command
+example : quote [36, 40, 105, 100, 41] = [39, 36, 40, 105, 100, 41, 39] := by decide
+example : BodyExact false [53, 48, 37] := body_exact_partial _ _ (Or.inl (by decide))
+example : WireSafe ⟨[71, 69, 84], [47], [72, 84, 84, 80, 47, 49, 46, 49], [([104], [118])], [98]⟩ := by decide
 
 end MitmVerif.Props.C48
